@@ -169,6 +169,10 @@ class FrameCollector:
                 del var_lookup[variable.vid]
                 self.__unwrapped[variable.vid] = variable_val
                 var_ids = variable_val.children
+            elif variable.vid in self.__unwrapped:
+                # this dict was already the locals of a frame above: code run through eval / exec without namespaces
+                # of its own runs on the locals of its caller - the caller has these variables too
+                var_ids = self.__unwrapped[variable.vid].children
         short_path, app_frame = self.parse_short_name(filename)
         return StackFrame(filename, short_path, func_name, lineno, var_ids, class_name,
                           app_frame=app_frame)
